@@ -71,4 +71,8 @@ def plan(tier, seed):
             ('Sw_%s_f64' % t, 'c09::Conv<%s, double, cnl::scaled_integer<int, %s>, 0>' % (tag, pE), 'convert|%s|f64|int:E' % tn, -40, 24),
         ]
     units += sweep_units('C09', 'props/C09.h', sweeps, cases * 2, nunits=8, keep=(lambda i, r: i % 2 == 0) if quick else None)
-    return dict(units=units, rule=RULE, assumptions=['long double arithmetic of the host (x87 80-bit) is what CNL computes with; the oracle never uses floating-point arithmetic'])
+    p = dict(units=units, rule=RULE, assumptions=['long double arithmetic of the host (x87 80-bit) is what CNL computes with; the oracle never uses floating-point arithmetic'])
+    if not quick:  # coverage-guided campaign over a slice of the same sites (thorough tier only)
+        fz = regs[::17][:30]
+        p = with_fuzz(p, 'C09', 'props/C09.h', fz, tier, 0, 1500000, max_len=200, chunk=6)
+    return p
